@@ -44,7 +44,12 @@ fn check_hook(st: &mut Stats, c: &Case) {
     p.round_seconds = RoundSeconds::None;
     st.tick();
     let base = match guarded(|| verif_hour_to_time(&p, pr, hour)) {
-        Ok(t) => hms(t),
+        Ok(t) => {
+            if t.nanosecond() != 0 {
+                st.violate("unrounded_conversion", c, json!({"level": "hook", "why": "the reported time carries a fraction of a second", "nanosecond": t.nanosecond(), "time": format!("{t:?}")}));
+            }
+            hms(t)
+        }
         Err(pm) => {
             st.violate("hook_panic", c, json!({"mode": "None", "panic": pm}));
             return;
@@ -129,6 +134,10 @@ fn check_api(st: &mut Stats, c: &Case) {
         for pr in SEVEN {
             match (base[&pr], res[&pr]) {
                 (Ok(a), Ok(b)) => {
+                    if a.time.nanosecond() != 0 || b.time.nanosecond() != 0 {
+                        // every mode reports whole seconds (mode None drops the fraction, the others whole minutes)
+                        st.violate("rounding_function", c, json!({"level": "api", "mode": format!("{mode:?}"), "prayer": format!("{pr:?}"), "why": "a reported time carries a fraction of a second", "unrounded": format!("{:?}", a.time), "got": format!("{:?}", b.time)}));
+                    }
                     let u = hms(a.time);
                     let want = model_round(mode, pr, u.0, u.1, u.2);
                     let got = hms(b.time);
